@@ -225,7 +225,7 @@ def h_map(I, fi):
             P.assume(inv(fr, seen))
             items = I_.eval(node.iter, fr)
             # the loops must range over EVERY chain and EVERY entry (the after-loop state assumes the witness has been processed)
-            P.check("map.iterates-all-chains", isinstance(items, SymSeq) and not items.tail and P.z(items.length) == P.z(results.n) and str(items.key) == "results.items",
+            P.check("map.iterates-all-chains", dsl.conj(isinstance(items, SymSeq) and not items.tail and str(items.key) == "results.items", P.z(items.length) == P.z(results.n)),
                     "the outer loop ranges over all items of the results mapping", kind="post")
             j = items.fresh_index(I_, "chain")
             I_.assign_target(node.target, items.at(I_, j), fr)
@@ -233,8 +233,8 @@ def h_map(I, fi):
             ck = I_.to_num(fr.vars[node.target.elts[0].id])
             e = seq.fresh_index(I_, "entry")
             elem = seq.at(I_, e)
-            P.check("map.iterates-all-entries", isinstance(seq, SymSeq) and not seq.tail and P.z(seq.length) == P.z(ntr(ck)) and isinstance(elem, tuple) and len(elem) == 2
-                    and I_.equal(elem[0], e) is True and isinstance(elem[1], Entry) and I_.equal(elem[1].i, e) is True and I_.equal(elem[1].c, ck) is True,
+            P.check("map.iterates-all-entries", dsl.conj(isinstance(seq, SymSeq) and not seq.tail and isinstance(elem, tuple) and len(elem) == 2
+                    and I_.equal(elem[0], e) is True and isinstance(elem[1], Entry) and I_.equal(elem[1].i, e) is True and I_.equal(elem[1].c, ck) is True, P.z(seq.length) == P.z(ntr(ck))),
                     "the inner loop ranges over all entries of the chain, each paired with its own position", kind="post")
             I_.assign_target(inner[0].target, elem, fr)
             dsl.cover(I_, "map.step")
